@@ -17,22 +17,22 @@ CONSTANTS Rec,               \* the trace: ndJsonDeserialize(IOEnv.TRACE), defin
           OEnc(_, _),        \* (schedule, block) -> block
           ODec(_, _),
           ExtraKinds         \* event kinds the instantiating module handles itself (never skipped here)
-VARIABLES l,      \* index of the next trace line to consume
+VARIABLES tpos,      \* index of the next trace line to consume
           inst    \* id -> [type, ks]
 
 N == Len(Rec)
 
-Init == l = 1 /\ inst = <<>>
+Init == tpos = 1 /\ inst = <<>>
 
-IsEvent(k) == l <= N /\ Rec[l].ev = k /\ l' = l + 1
-Has(f) == f \in DOMAIN Rec[l]
+IsEvent(k) == tpos <= N /\ Rec[tpos].ev = k /\ tpos' = tpos + 1
+Has(f) == f \in DOMAIN Rec[tpos]
 
 Put(f, k, v) == [x \in (DOMAIN f) \cup {k} |-> IF x = k THEN v ELSE f[x]]
 Del(f, k) == [x \in (DOMAIN f) \ {k} |-> f[x]]
 
 New ==
     /\ IsEvent("new")
-    /\ LET e == Rec[l] IN
+    /\ LET e == Rec[tpos] IN
        IF e.out = "ok"
        THEN inst' = Put(inst, e.id, [type |-> e.type, ks |-> TLCEval(OSched(e.type, e.key, e.x))])
        ELSE UNCHANGED inst
@@ -41,7 +41,7 @@ Ok(e) == IF "outcome" \in DOMAIN e THEN e.outcome = "ok" ELSE TRUE
 
 Enc ==
     /\ IsEvent("enc")
-    /\ LET e == Rec[l] IN
+    /\ LET e == Rec[tpos] IN
        /\ e.id \in DOMAIN inst
        /\ Ok(e)
        /\ e.out = OEnc(inst[e.id].ks, e.in)
@@ -49,7 +49,7 @@ Enc ==
 
 Dec ==
     /\ IsEvent("dec")
-    /\ LET e == Rec[l] IN
+    /\ LET e == Rec[tpos] IN
        /\ e.id \in DOMAIN inst
        /\ Ok(e)
        /\ e.out = ODec(inst[e.id].ks, e.in)
@@ -58,7 +58,7 @@ Dec ==
 \* a multi-block call: every lane is an independently checked block
 Blocks ==
     /\ IsEvent("blocks")
-    /\ LET e == Rec[l] IN
+    /\ LET e == Rec[tpos] IN
        /\ e.id \in DOMAIN inst
        /\ Ok(e)
        /\ Len(e.out) = Len(e.in)
@@ -70,31 +70,31 @@ Blocks ==
 \* a clone or a converted instance must compute the standard's function for the same key
 Derive(k) ==
     /\ IsEvent(k)
-    /\ LET e == Rec[l] IN
+    /\ LET e == Rec[tpos] IN
        IF e.out = "ok" /\ e.src \in DOMAIN inst
        THEN inst' = Put(inst, e.id, inst[e.src])
        ELSE UNCHANGED inst
 
 Drop ==
     /\ IsEvent("drop")
-    /\ inst' = IF Rec[l].id \in DOMAIN inst THEN Del(inst, Rec[l].id) ELSE inst
+    /\ inst' = IF Rec[tpos].id \in DOMAIN inst THEN Del(inst, Rec[tpos].id) ELSE inst
 
 Reset == IsEvent("reset") /\ inst' = <<>>
 
 \* debugging aid (bin/oracle): print what the specification computes; never used by the checks
 Eval ==
     /\ IsEvent("eval")
-    /\ LET e == Rec[l]
+    /\ LET e == Rec[tpos]
            ks == TLCEval(OSched(e.type, e.key, e.x))
        IN PrintT(<<"EVAL", "enc", OEnc(ks, e.in), "dec", ODec(ks, e.in)>>)
     /\ UNCHANGED inst
 
 Checked == {"new", "enc", "dec", "blocks", "drop", "reset", "clone", "from", "eval"}
 \* events that belong to other layers of the same trace are consumed unchanged
-Skip == l <= N /\ Rec[l].ev \notin (Checked \cup ExtraKinds) /\ l' = l + 1 /\ UNCHANGED inst
+Skip == tpos <= N /\ Rec[tpos].ev \notin (Checked \cup ExtraKinds) /\ tpos' = tpos + 1 /\ UNCHANGED inst
 
 Next == New \/ Enc \/ Dec \/ Blocks \/ Derive("clone") \/ Derive("from") \/ Drop \/ Reset \/ Eval \/ Skip
-vars == <<l, inst>>
+vars == <<tpos, inst>>
 Spec == Init /\ [][Next]_vars
 
 \* accepted iff every line was consumed; on rejection print the first unmatched line
